@@ -471,7 +471,12 @@ where
             Ok(())
         };
         let result = f(self);
-        let _ = self.read_byte();
+        // One more byte of clocks for the card - and if the bus fails here
+        // we can't claim the card is ready either.
+        let result = result.and(self.read_byte().map(|_| ()));
+        if result.is_err() {
+            self.card_type = None;
+        }
         result
     }
 
